@@ -21,14 +21,37 @@ MOD = 'peripheral::etrade_plan_pdf_tx_extract_impl::'
 BTX = 'peripheral::broker::broker_tx::BrokerTx'
 
 
-def days_of(prog, fn, operand):
+def days_of(prog, fn, operand, depth=0):
+    """N of the `Duration::days(N)` an operand comes from — written in place or as a named constant item"""
+    from props import c02
     org = mir.provenance(fn, operand)
     for c in org.calls:
-        if c.callee == 'time::Duration::days' and c.args and c.args[0]['k'] == 'const':
-            m = re.match(r'^(-?\d+)_', c.args[0].get('v', ''))
-            if m:
-                return int(m.group(1))
+        if c.callee == 'time::Duration::days' and c.args:
+            n = c02.const_int(prog, fn, c.args[0])
+            if n is not None:
+                return n
+    if depth < 2:
+        for (ty, v, d) in org.consts:
+            item = prog.resolve(d, fn.crate) if d else None
+            if item is not None and 'time::Duration' in (item.ty.get(0) or ''):
+                return days_of(prog, item, {'l': 0, 'p': []}, depth + 1)
     return None
+
+
+def side_origins(prog, m, g, a):
+    """(fields, calls) an argument of a comparison derives from; for a comparison inside a closure of m, captured variables are
+    followed into m"""
+    x = mir.provenance(g, a, follow_all_call_args=False)
+    fields, calls = set(x.fields), list(x.calls)
+    if g is not m and x.upvars:
+        for u in x.upvars:
+            nm = g.upvar_names.get(u)
+            for l, n in m.varnames.items():
+                if n == nm:
+                    y = mir.provenance(m, l, follow_all_call_args=False)
+                    fields |= y.fields
+                    calls += y.calls
+    return fields, calls
 
 
 def run(prog, rep, tier='quick', config='default'):
@@ -53,13 +76,14 @@ def run(prog, rep, tier='quick', config='default'):
         rep.violation('R19a', 'five-day-window', where=adds[0].where() if adds else '', fn=m.name,
                       detail='the sell-to-cover candidate window is benefit date + %s days (must be 5)' % n)
     lower = upper = None
-    for c in m.calls:
+    group = [m] + [g for g in prog.closures_of(m)]
+    for g, c in [(g, c) for g in group for c in g.calls]:
         mm = re.search(r'PartialOrd::(le|lt|ge|gt)$', c.decl)
         if not mm or len(c.args) != 2:
             continue
-        o = [mir.provenance(m, a, follow_all_call_args=False) for a in c.args]
-        f0 = [{(of.rsplit('::', 1)[-1], fl) for of, fl in x.fields} for x in o]
-        is_latest = [adds and (adds[0] in x.calls) for x in o]
+        o = [side_origins(prog, m, g, a) for a in c.args]
+        f0 = [{(of.rsplit('::', 1)[-1], fl) for of, fl in x[0]} for x in o]
+        is_latest = [adds and (adds[0] in x[1]) for x in o]
         is_trade = [('BrokerTx', 'trade_date') in x for x in f0]
         is_benefit = [('BenefitEntry', 'acquire_tx_date') in x and not l for x, l in zip(f0, is_latest)]
         op = mm.group(1)
@@ -105,6 +129,19 @@ def run(prog, rep, tier='quick', config='default'):
             cand_iters.append(nc)
         else:
             cand_iters_bad.append(nc)
+    # the same selection written as `pool.iter().filter(|t| .. date tests ..)`
+    for c in m.calls:
+        if c.short not in ('filter', 'filter_map') or not re.search(r'slice::Iter<.*BrokerTx', m.ty.get(c.arg_local(0), '') or ''):
+            continue
+        g = mir._closure_fn_of(prog, m, c.args[1]) if len(c.args) > 1 else None
+        if g is None or not any(re.search(r'PartialOrd::(le|lt|ge|gt)$', x.decl) for x in g.calls):
+            continue
+        src = mir.nearest_user_local(m, c.args[0])
+        if src is None:
+            o = mir.provenance(m, c.args[0], follow_all_call_args=True)
+            roots = {l for l in o.locals if l in pool_roots}
+            src = next(iter(roots)) if roots else None
+        (cand_iters if src in pool_roots else cand_iters_bad).append(c)
     out_ok = False
     for b in m.blocks.values():
         for s in b['stmts']:
